@@ -303,6 +303,33 @@ def locking(ctx):
     chain(ctx, rid, U + "unlock", [{"k": "call", "field": "bucket::state", "op": "store"}], label="unlock-stores")
 
 
+def hash_agreement(ctx):
+    """grow() re-distributes the entries with the hash the lookups use"""
+    rid = "VHM.grow"
+    import re as _re
+    n = 0
+    custom = 0
+    for fn in ctx.facts.fns:
+        if not fn.pat.endswith("::rehash") or "vyukov_hash_map" not in fn.pat:
+            continue
+        calls = [e for b, i, e, nn in fn.events() if nn["k"] == "call" and nn.get("callee", "").endswith("::operator()")]
+        for inst in fn.insts:
+            m = _re.search(r"::rehash<(.*)>$", inst)
+            if not m or not calls:
+                continue
+            want = _re.sub(r"<.*", "", m.group(1)).strip()          # the Hash template argument, template arguments erased
+            n += 1
+            if not want.endswith("xenium::hash") and want != "hash":
+                custom += 1
+            got = calls[0] and fn.nodes[calls[0]]["callee"][:-len("::operator()")]
+            ok = got == want or got.split("::")[-1] == want.split("::")[-1]
+            ctx.check(ok, rid, fn.pat + "#configured-hash[%s]" % want.split("::")[-1], "rehash<%s> hashes with %s" % (want, got),
+                      "rehash<%s>() computes the hash with %s instead of the configured hash functor: after a grow() the entries sit in buckets that lookups with the "
+                      "configured hash do not visit (present keys reported absent, duplicates on insert)" % (want, got), fn.where(calls[0]), fn=fn)
+    if n < 2 or custom < 1:
+        ctx.broken.append("VHM hash agreement: %d rehash instantiations analysed, %d with a configured (non-default) hash" % (n, custom))
+
+
 def pool_locking(ctx):
     """the shared pools of extension items are plain singly linked lists protected by a spin lock per pool"""
     rid = "VHM.pool-lock"
